@@ -158,6 +158,44 @@ def route_lines(app):
     return lines
 
 
+def header_lines(app):
+    """Responses of every kind - refused by the routing layer, by the policy,
+    by the handler, by the object layer, and successes - must carry the
+    version applied and a Vary header naming it (C14, last sentence)."""
+    lines = []
+    missing = U('p11')
+    probes = []
+    for route in ROUTES:
+        if '{uuid}' in route or '{consumer_uuid}' in route or '{name}' in route:
+            p = concrete(route).replace(U('p1'), missing).replace(U('c1'), U('c7'))
+            p = p.replace('CUSTOM_T2', 'CUSTOM_T4').replace('CUSTOM_RC2', 'CUSTOM_RC4')
+            probes.append(('missing-entity', 'GET', p, 'admin+service', None, True))
+            probes.append(('missing-entity', 'DELETE', p, 'admin+service', None, True))
+        probes.append(('denied', 'GET', concrete(route), 'noroles', None, True))
+        probes.append(('denied', 'DELETE', concrete(route, 'DELETE'), 'reader_own', None, True))
+        probes.append(('bad-json', 'PUT', concrete(route, 'PUT'), 'admin+service', b'{"foo": ', True))
+        probes.append(('bad-json', 'POST', concrete(route, 'POST'), 'admin+service', b'{"foo": ', True))
+        probes.append(('no-content-type', 'PUT', concrete(route, 'PUT'), 'admin+service', b'{}', False))
+        probes.append(('wrong-media-type', 'POST', concrete(route, 'POST'), 'admin+service', b'{}', 'text/plain'))
+        probes.append(('success-or-handler-error', 'GET', concrete(route), 'admin+service', None, True))
+    probes.append(('unknown-route', 'GET', '/nonexistent', 'admin+service', None, True))
+    probes.append(('conflict', 'POST', '/resource_providers', 'admin+service',
+                   json.dumps({'name': 'p1', 'uuid': U('p9')}).encode(), True))
+    for kind, method, path, caller, body, ctype in probes:
+        for vkind, v, hv in (('num', 0, '1.0'), ('num', 14, '1.14'), ('num', 22, '1.22'), ('num', 39, '1.39'),
+                             ('latest', 39, 'latest'), ('none', 0, None)):
+            app.restore('surf')
+            h = hdr(hv, caller, body is not None and ctype is True)
+            if isinstance(ctype, str):
+                h['content-type'] = ctype
+            st, rh, rb = app.call(method, path, h, body)
+            lines.append({'kind': 'hdr', 'probe': kind, 'method': method, 'route': path, 'vkind': vkind, 'v': v,
+                          'status': st, 'hver': _ver_of(rh),
+                          'vary': 'openstack-api-version' in rh.get('vary', '').lower()})
+    app.restore('surf')
+    return lines
+
+
 # ---------------------------------------------------------------------------
 # versioned features
 
@@ -520,6 +558,8 @@ def worker(job):
     rnd = random.Random(job['seed'])
     if job['part'] == 'routes':
         lines = route_lines(app)
+    elif job['part'] == 'headers':
+        lines = header_lines(app)
     elif job['part'] == 'features':
         lines = feature_lines(app)
     else:
